@@ -1105,7 +1105,10 @@ class PolyhedralTermList(TermList):  # noqa: WPS338
                 b_opt = np.concatenate((b_temp, b_help))
             else:
                 a_opt = a_temp
-                b_opt = b_temp
+                b_opt = np.copy(b_temp)
+            # the relaxation of the tested row grows with its bound, so that telling 'reaches the relaxed bound'
+            # from 'stays below the bound' never needs many significant digits of the optimum
+            b_opt[i] += abs(b_temp[i])
             # Linprog's status values
             # 0 : Optimization proceeding nominally.
             # 1 : Iteration limit reached.
@@ -1184,7 +1187,7 @@ class PolyhedralTermList(TermList):  # noqa: WPS338
             logging.debug("b_r is \n%s", b_r)
 
             a_opt = np.concatenate((a_l, constraint), axis=0)
-            b_opt = np.concatenate((b_l, np.array([b_temp])))
+            b_opt = np.concatenate((b_l, np.array([b_temp + abs(b_temp)])))
 
             res = _solve_bounded_lp(objective, a_opt, b_opt)
             b_temp -= 1
